@@ -119,6 +119,7 @@ func consumeNumber(data []byte, pos int, isFlag bool) int {
 	}
 	start := data[pos]
 	seenDot := start == '.'
+	seenExp := start == 'e' || start == 'E'
 	pos++
 	for ; pos < len(data); pos++ {
 		c := data[pos]
@@ -126,7 +127,7 @@ func consumeNumber(data []byte, pos int, isFlag bool) int {
 		case '0', '1', '2', '3', '4', '5', '6', '7', '8', '9':
 			continue
 		case '.':
-			if seenDot { // .5.5 is interpreted as 0.5 0.5
+			if seenDot || seenExp { // .5.5 is interpreted as 0.5 0.5, 2e1.5 as 20 0.5
 				return pos
 			}
 			// else continue: floating point
@@ -140,6 +141,7 @@ func consumeNumber(data []byte, pos int, isFlag bool) int {
 		default:
 			// accept numbers and exponents
 			if c == 'e' || c == 'E' {
+				seenExp = true
 				continue
 			}
 			return pos
